@@ -355,6 +355,21 @@ func (g *qGen) selections(t *TypeSpec, depth int, top bool) []string {
 					}
 					body := strings.Join(g.selections(c, depth, false), " ")
 					g.k.NamedFrags = saved
+					if g.pct(50) {
+						// the plain case: every scalar of the implementer (they usually live at several services),
+						// nothing nested, nothing repeated -- the fragment's type differs from the enclosing type
+						// and that is all
+						parts := []string{}
+						for _, sf := range g.fieldsOf(c) {
+							if scalarNames[sf.Type.Named] && sf.Name != "id" {
+								parts = append(parts, sf.Name+g.args(sf))
+							}
+						}
+						if len(parts) > 0 {
+							g.feats["spread-on-impl-plain"]++
+							body = strings.Join(parts, " ")
+						}
+					}
 					g.frags = append(g.frags, fmt.Sprintf("fragment %s on %s { %s }", name, c.Name, body))
 					out = append(out, "..."+name)
 					continue
